@@ -19,8 +19,8 @@ PROTO = {
     "name": "C02proto",
     "properties_file": "Properties/C02_protocol.v",
     "proof_files": ["Proofs/CopyImplBase.v", "Proofs/CopyImplInv.v", "Proofs/CopyImplInv2.v", "Proofs/CopyImplLive.v",
-                    "Proofs/CopyImplDeadlock.v", "Proofs/CopyImplFault.v", "Proofs/CopyImplTerm.v", "Proofs/CopyImplSucc.v", "Proofs/CopyImplSucc2.v", "Proofs/CopyImplOrder.v", "Proofs/CopyImplNoFault.v", "Proofs/CopyImplDst.v", "Proofs/CopyImplRefine.v"],
-    "model_files": ["Model/CopyImpl.v", "Model/CopyImplDst.v"],
+                    "Proofs/CopyImplDeadlock.v", "Proofs/CopyImplFault.v", "Proofs/CopyImplTerm.v", "Proofs/CopyImplSucc.v", "Proofs/CopyImplSucc2.v", "Proofs/CopyImplOrder.v", "Proofs/CopyImplNoFault.v", "Proofs/CopyImplDst.v", "Proofs/CopyImplRefine.v", "Proofs/CopyImplSrc.v"],
+    "model_files": ["Model/CopyImpl.v", "Model/CopyImplDst.v", "Generated/GC02.v", "Model/CopyImplSrc.v"],
     "extract": "XCopyImpl.v",
     "ml_main": "goimpl_main.ml",
     "harness": "goimpl",
